@@ -421,7 +421,7 @@ class Store:
                 if x is None: return False
                 self.v[v] = copy.deepcopy(x)
                 return True
-            if op != "mut":
+            if op not in ("mut", "mutx"):
                 return False
             v = int(t[1])
             path = parse_path(t[2])
@@ -430,7 +430,7 @@ class Store:
             cur = walk(self.v[v], path)
             if lf == "set":
                 a = self.valarg(args)
-                if a is None or (path and v in a[1]) or a[0][0] == 'n' or cur is None: return False
+                if a is None or (path and v in a[1] and op != "mutx") or a[0][0] == 'n' or cur is None: return False
                 self.replace(v, path, a[0])
                 return True
             if lf in ("assign", "lapp", "lpre", "aapp"):
@@ -788,6 +788,64 @@ def probe_self_append(ctx, harness):
                       "(value semantics: it contains a copy of its old value)", txt, signature="self-append")
 
 
+def explore_self_temp(ctx, harness):
+    """`mut v <non-empty path> set <temporary containing v>`: refused by the model's precondition `mutOk` although the real
+    code is correct there (the temporary holds copies made before the accessor chain runs).  These lines are explored on
+    the real code against the value reference only (`mutx`, answered by harness and reference, not by the model)."""
+    rng = ctx.rng
+    hs = []
+    n = 1200 if ctx.tier == "quick" else 20000
+    emitted = 0
+    for _ in range(n):
+        base = gen_history(rng, rng.choice([6, 12, 20]))
+        st, h = Store(), []
+        for op in base:
+            st.apply(op)
+            h.append(op)
+            if rng.random() < 0.35:
+                cands = [v for v in range(NV) if st.v[v][0] in 'LAM' and st.v[v][1]]
+                if not cands:
+                    continue
+                v = rng.choice(cands)
+                pth, _ = rand_path(rng, st.v[v])
+                if pth == ".":
+                    continue
+                kind = rng.choice(["list", "arr", "map"])
+                items = [f"v{v}" if rng.random() < 0.6 else (f"v{rng.randrange(NV)}" if rng.random() < 0.5 else rand_lit(rng))
+                         for _ in range(rng.randrange(1, 4))]
+                if f"v{v}" not in items:
+                    items[0] = f"v{v}"
+                if kind == "map":
+                    items = [x for it in items for x in (hexs(rng.choice(KEYS)), it)]
+                x = f"mutx {v} {pth} set {kind} " + " ".join(items)
+                if st.apply(x):
+                    h.append(x)
+                    emitted += 1
+        hs.append(h)
+    lines, _ = C.flatten(hs)
+    out, rc, err = C.run_lines(harness, lines, timeout=600)
+    ctx.cov["evaluations"] += len(out)
+    segs = C.split_outputs(out, hs)
+    bad = None
+    for h, seg in zip(hs, segs):
+        ref = reference(h)
+        for i, (a, b) in enumerate(zip(seg, ref)):
+            if not line_eq(a, b):
+                bad = (h[:i + 1], a, b)
+                break
+        if bad is None and len(seg) < len(ref):
+            bad = (h[:len(seg) + 1], f"<no output: crash/timeout rc={rc}> {err[-400:]}", ref[len(seg)])
+        if bad:
+            break
+    if bad is None and rc != 0:
+        bad = (hs[-1], f"<harness exit code {rc}> {err[-600:]}", "exit 0 (no sanitizer / leak report)")
+    ctx.cov["self_temp_lines_explored"] = {"histories": len(hs), "mutx_lines": emitted, "compared": "implementation vs value reference",
+                                           "disagreements": 0 if bad is None else 1}
+    if bad:
+        ctx.violation("typed assignment of a temporary that contains the accessed variable, below the root (impl-vs-reference)",
+                      "\n".join(bad[0]) + f"\n# impl    : {bad[1]}\n# expected: {bad[2]}\n")
+
+
 def model_counters(ctx, hs, cap=12000):
     """coverage counters read off the model: the driver replays the walk of every `mut` with the model's own functions and
     records each copy-on-write decision (`stats` line, answered by the driver only)"""
@@ -855,6 +913,7 @@ def check(ctx):
         ctx.log(f"{len(hs)} histories, {ctx.cov['evaluations']} op lines, {len(diffs)} disagreement(s)")
         C.report_diffs(ctx, diffs, harness, C.driver_path(DRIVER), reference, line_eq, "variant-ops")
         probe_self_append(ctx, harness)
+        explore_self_temp(ctx, harness)
         model_counters(ctx, hs)
     finally:
         try:
